@@ -27,6 +27,7 @@ import numpy as np  # noqa: E402
 
 from harness.props import c02_sess as L  # noqa: E402
 from harness.props import c02_fw as F  # noqa: E402
+from harness.props import c02_rec as RC  # noqa: E402
 from harness.translate import c02 as T  # noqa: E402
 
 
@@ -1168,6 +1169,44 @@ class Cls(Family):
 
 
 # =============================================================================================
+# rec — the per-class transcriptions against the real savers / loaders
+# =============================================================================================
+
+class RecFam(Sess):
+    """every object of a class of the record table (Model/C02Records.lean) that occurs in a generated session:
+    real saver output == Lean encode(fields), Lean decode(real record) == fields of the real restored object,
+    restored fields == saved fields"""
+    name = "rec"
+    exhaustive = False
+    batch = 12
+    budget_share = 0.8
+    case_timeout = 60.0
+    family_tag = "rec"
+
+    def cases(self, tier, rng):
+        yield from systematic_sessions(tier)
+        n = 500 if tier == "quick" else 20000
+        for i in range(n):
+            yield gen_session(rng)
+
+    def run_impl(self, case):
+        gc.disable()
+        return RC.run(case)
+
+    def line(self, case, pyout):
+        return sx(["rec", [], pyout])
+
+    def nontrivial(self, case, po):
+        return isinstance(po, list) and po[0] == "ok" and len(po) > 1
+
+    def signature(self, case, po, res):
+        sig = Sess.signature(self, case, po, res)
+        classes = sorted({str(i[0]) for i in po[1:]}) if isinstance(po, list) and po and po[0] == "ok" else []
+        sig["classes"] = "+".join(classes)
+        return sig
+
+
+# =============================================================================================
 
 def pre_build():
     T.write()
@@ -1177,7 +1216,7 @@ PROP = Property(
     id="C02",
     title="A saved session restores to an observationally equivalent session",
     theorems=["C02.names_injective", "C02.disambiguate_total_fresh", "C02.string_prefix_safe", "C02.old_label_reads_as_literal", "C02.roundtrip_framework", "C02.roundtrip_framework_cycles", "C02.roundtrip_framework_callbacks", "C02.classes_field_faithful", "C02.roundtrip_classes", "C02.declared_ids_denote_declared_names", "C02.dispatch_matches_observed", "C02.table_offenders_nil", "C02.no_silent_fallthrough"],
-    families=[Fw(), Cls(), Sess(), SessFiles()],
+    families=[Fw(), Cls(), RecFam(), Sess(), SessFiles()],
     pre_build=pre_build,
     trusted_base=["JSON, base64, np.save/np.load, FITS/HDF5/CSV readers (astropy, h5py, pandas) are trusted codecs",
                   "CPython dict insertion order (registration order of GlueSerializer._objs), generator protocol, bound-method equality"],
